@@ -115,6 +115,7 @@ def run_unit(unit, repo='/repo', rlimit=None, seed=None, extra_args=(), timeout=
   if variant:
     text = variant(text)
   res['items'] = comp['items']
+  res['lost_anchors'] = ['%s: %s' % (it['path'], l) for it in comp['items'] for l in it.get('lost_anchors', [])]
   res['rules'] = comp['rules']
   os.makedirs(BUILD, exist_ok=True)
   tag = unit if not variant else unit + '__' + getattr(variant, 'tag', 'variant')
@@ -173,6 +174,13 @@ def run_unit(unit, repo='/repo', rlimit=None, seed=None, extra_args=(), timeout=
         best = (name, lo, hi)
     return best
 
+  def item_at(line):
+    for it in comp['items']:
+      lo, hi = it['gen_lines']
+      if lo <= line <= hi:
+        return it
+    return None
+
   def repo_ref(line):
     for it in comp['items']:
       lo, hi = it['gen_lines']
@@ -228,8 +236,11 @@ def run_unit(unit, repo='/repo', rlimit=None, seed=None, extra_args=(), timeout=
       src_line = lines[lab_line - 1].strip() if 0 < lab_line <= len(lines) else ''
       name = '%s::%s' % (clause_fn, label) if label else '%s::[%s] %s' % (fnname, msg, ' '.join(src_line.split())[:80])
       # the function whose proof failed: for a precondition failure it's the caller (primary span)
+      it = item_at(line)
       failures.append({'name': name, 'in_fn': fnname, 'message': msg, 'gen_line': line, 'repo_ref': repo_ref(line),
-                       'text': src_line, 'rendered': d.get('rendered', '')})
+                       'text': src_line, 'rendered': d.get('rendered', ''),
+                       'degraded': bool(it and it.get('lost_anchors')),
+                       'lost_anchors': (it.get('lost_anchors') if it else [])})
       continue
     hard_errors.append(msg + (' @%d' % line if line else ''))
   # vacuity canaries: functions named canary_must_fail* are expected to be refuted; they are not
